@@ -290,6 +290,31 @@ def _build_suite(node, classes, layers):
     return s
 
 
+def _make_doctest(modname, dt, layers):
+    import doctest
+
+    class TracedDocTestCase(doctest.DocTestCase):
+        def run(self, result=None):
+            tid = self.id()
+            hook('test.run', tid)
+            try:
+                return doctest.DocTestCase.run(self, result)
+            finally:
+                hook('test.ran', tid)
+
+    tid = '%s.%s' % (modname, dt['name'])
+    lines = ['>>> from vsim.simrt import hook']
+    for i in range(dt['examples']):
+        lines.append('>>> hook(%r, %r)' % ('test.ex', '%s#%d' % (tid, i)))
+    test = doctest.DocTestParser().get_doctest(
+        '\n'.join(lines) + '\n', {}, tid, modname.replace('.', '/') + '.py', 0)
+    case = TracedDocTestCase(test)
+    suite = unittest.TestSuite([case])
+    if dt.get('layer') is not None:
+        suite.layer = layers[dt['layer']]
+    return suite
+
+
 def populate_tests(g):
     modname = g['__name__']
     short = modname.rsplit('.', 1)[-1]
@@ -300,7 +325,9 @@ def populate_tests(g):
     if m is None:
         raise ImportError('no such world module ' + modname)
     hook('module.import', modname)
-    if m['classes'] and any(c.get('layer') is not None for c in m['classes']) or m.get('suite'):
+    dts = m.get('doctests') or []
+    if m['classes'] and any(c.get('layer') is not None for c in m['classes']) or m.get('suite') \
+            or any(dt.get('layer') is not None for dt in dts):
         import importlib
         lm = importlib.import_module(LAYERMOD)
         layers = {L['name']: getattr(lm, L['name']) for L in rt.world['layers']}
@@ -312,10 +339,19 @@ def populate_tests(g):
         classes[c['name']] = cls
         g[c['name']] = cls
     tree = m.get('suite')
-    if tree is not None:
+    if tree is not None or dts:
         def test_suite():
             hook('module.test_suite', modname)
-            return _build_suite(tree, classes, layers)
+            if tree is not None:
+                top = _build_suite(tree, classes, layers)
+            else:
+                top = unittest.TestSuite(
+                    [unittest.defaultTestLoader.loadTestsFromTestCase(classes[n])
+                     for n in sorted(classes)])
+            if dts:
+                top = unittest.TestSuite([top] + [_make_doctest(modname, dt, layers)
+                                                  for dt in dts])
+            return top
         g['test_suite'] = test_suite
 
 
